@@ -324,6 +324,7 @@ Lemma blk_allocate_na_unfold : forall fuel s length_blk offset_blk opts ovr,
     let '(rc, s3) := set_bit_status s2 noff olen true false (strict s) in
     let s4 := if (rc =? 0) && negb (has opts IWFSM_ALLOC_NO_STATS) then stats_update s3 length_blk else s3 in
     let s5 := if (rc =? 0) && has opts IWFSM_SOLID_ALLOCATED_SPACE then solid s4 noff olen else s4 in
+    let rc := if (rc =? 0) && has opts IWFSM_SOLID_ALLOCATED_SPACE then solid_rc s4 noff olen else rc in
     let rc' := if (rc =? 0) && has opts IWFSM_SYNC_BMAP && mmap_all (vr s) && negb (fx_sync (vr s))
                then IWFS_ERROR_NOT_MMAPED else rc in
     (rc', s5, noff, olen)
@@ -893,7 +894,7 @@ Lemma blk_allocate_al_unfold : forall fuel s length_blk opts,
     | S f => let '(rc2, s2) := resize_fsm_bitmap s1 (shl (bmlen s1) 1) in
              if negb (rc2 =? 0) then (rc2, s2, off, olen) else blk_allocate_al f s2 length_blk opts
     end
-  else if (rc =? 0) && has opts IWFSM_SOLID_ALLOCATED_SPACE then (rc, solid s1 off olen, off, olen)
+  else if (rc =? 0) && has opts IWFSM_SOLID_ALLOCATED_SPACE then (solid_rc s1 off olen, solid s1 off olen, off, olen)
   else (rc, s1, off, olen).
 Proof. intros fuel; destruct fuel; reflexivity. Qed.
 
